@@ -23,6 +23,10 @@ import unitrun  # noqa: E402
 from unitrun import VERIF, REPO  # noqa: E402
 
 
+def _h(s):
+    return hashlib.sha1(s.encode()).hexdigest()[:10]
+
+
 def load_known():
     p = os.path.join(VERIF, "known_findings.json")
     if not os.path.exists(p):
@@ -176,6 +180,7 @@ def main():
     ap.add_argument("--only", help="unit[:instance] filter (development)")
     ap.add_argument("--jobs", type=int, default=int(os.environ.get("VERIF_JOBS", "14")))
     ap.add_argument("--no-evidence", action="store_true")
+    ap.add_argument("--write-baseline", action="store_true", help="record the obligations discharged on the pinned tree in baselines/<Cxx>.json")
     a = ap.parse_args()
     t0 = time.time()
     seed = int(os.environ.get("VERIF_SEED", "0") or 0)
@@ -286,6 +291,31 @@ def main():
                     json.dump({"property": prop, "bounded_check": b["name"], "failures": unknown, "confirmed_on_real_code": True}, open(rp, "w"), indent=1)
                     violations.append(({"unit": "bounded:" + b["name"], "instance": "", "failures": unknown}, rp, True))
 
+        bl_path = os.path.join(VERIF, "baselines", prop + ".json")
+        baseline = json.load(open(bl_path)) if os.path.exists(bl_path) else {}
+        if a.write_baseline and not a.only and not violations and not machinery:
+            bl = {}
+            for r in results:
+                if r["_mutant"] or r["status"] != "pass":
+                    continue
+                bl["%s/%s" % (r["unit"], r["instance"])] = {
+                    "slices": {s["as"]: s.get("sha256", "") for s in r["slices"]},
+                    "discharged": sorted({_h("%s|%s" % (x["property"].rsplit(".", 1)[0], x.get("description", ""))) for x in r.get("raw_results", []) if x["status"] == "SUCCESS"})}
+            os.makedirs(os.path.dirname(bl_path), exist_ok=True)
+            json.dump(bl, open(bl_path, "w"), indent=0, sort_keys=True)
+            print("baseline written: %s (%d instances)" % (bl_path, len(bl)))
+        for r, rp, confirmed in violations:
+            # annotate the replay file: was this obligation discharged on the pinned tree, which slices changed since
+            key = "%s/%s" % (r["unit"], r["instance"])
+            b = baseline.get(key)
+            note = {"baseline_available": b is not None}
+            if b is not None:
+                note["slices_changed_since_baseline"] = [s["as"] for s in r.get("slices", []) if b["slices"].get(s["as"]) not in (None, s.get("sha256", ""))]
+                note["failed_obligations_discharged_at_baseline"] = [f["id"] for f in r["failures"] if _h("%s|%s" % (f["id"].rsplit(".", 1)[0], f["description"])) in set(b["discharged"])]
+            try:
+                d = json.load(open(rp)); d["baseline"] = note; json.dump(d, open(rp, "w"), indent=1)
+            except Exception:  # noqa
+                pass
         for l in sorted(set(known_lines)):
             print(l)
         for r, rp, confirmed in violations:
